@@ -60,6 +60,9 @@ OpsOn(st) ==
  \cup {Op("setoptind", v, "-", "-") : v \in {"1", "3"} \ {st.optind}}        \* what a getopts loop leaves behind
  \cup {Op("pushd", d, "-", "-") : d \in {x \in Dirs : Len(st.stack) < 2}}
  \cup {Op("popd", "-", "-", "-") : x \in {y \in {1} : st.stack # <<>>}}
+ \* the test case tidies up: it deletes everything below the temporary directory scrut gave it (the carrier keeps its state
+ \* file in a hidden directory there); no effect on the shell state
+ \cup {Op("cleantmp", "-", "-", "-")}
 
 \* options that change how the rest of the state is parsed or expanded when it is restored, and state that is sensitive to it
 Interplay(o) == \/ o.op = "shopt" /\ o.a = "extglob"
@@ -86,6 +89,7 @@ Apply(st, o) ==
       [] o.op = "setoptind"   -> [st EXCEPT !.optind = o.a]
       [] o.op = "pushd"       -> [st EXCEPT !.stack = <<st.cwd>> \o @, !.cwd = o.a]
       [] o.op = "popd"        -> [st EXCEPT !.cwd = Head(st.stack), !.stack = Tail(@)]
+      [] o.op = "cleantmp"    -> st
 
 RECURSIVE ApplyAll(_, _)
 ApplyAll(st, ops) == IF ops = <<>> THEN st ELSE ApplyAll(Apply(st, Head(ops)), Tail(ops))
@@ -106,7 +110,7 @@ vars == <<hist, sess, file, proc, obs, ref, pc, cur>>
 Representative(o) == \/ o.op \in {"setvar", "setexported", "cfgenv"} /\ o.a \in {"v1", "TMPDIR_ORIG"} /\ o.b = "scalar" /\ o.c = "plain"
                      \/ o.op \in {"deffunc", "defalias"}          \* (body 2 of the function only parses while extglob is on)
                      \/ o.op \in {"cd", "pushd"} /\ o.a = "sub1"
-                     \/ o.op = "setoptind"
+                     \/ o.op = "setoptind" \/ o.op = "cleantmp"
                      \/ o.op = "setopt" /\ (o.b = "off" \/ o.a = "pipefail")
                      \/ o.op = "shopt" /\ (o.b = "off" \/ o.a = "nullglob")
 \* family "script": the document is run by the single-script executor (Cram documents, --cram-compat): ONE process for all
